@@ -126,3 +126,71 @@ runner1!(run_c32_keycount_mono, c32_keycount_mono, keycount_mono, (i32, i32), us
 runner1!(run_c32_cast_stream, c32_cast_stream, cast_stream, i32, i32);
 runner1!(run_c32_cast_keyed, c32_cast_keyed, cast_keyed, (i32, i32), (i32, i32));
 runner2!(run_c32_repeat_tick, c32_repeat_tick, repeat_tick, (i32, i32), i32, (i32, i32));
+
+/// two inputs, two outputs `acks` / `resp`
+macro_rules! runner2x2 {
+    ($name:ident, $m:ident, $f:ident, $I1:ty, $I2:ty, $O1:ty, $O2:ty) => {
+        pub fn $name(ticks: &[(Vec<$I1>, Vec<$I2>)]) -> Result<Vec<(Vec<$O1>, Vec<$O2>)>, String> {
+            let q1: Rc<RefCell<VecDeque<$I1>>> = Default::default();
+            let q2: Rc<RefCell<VecDeque<$I2>>> = Default::default();
+            let o1: Rc<RefCell<Vec<$O1>>> = Default::default();
+            let o2: Rc<RefCell<Vec<$O2>>> = Default::default();
+            let (p1, p2) = (o1.clone(), o2.clone());
+            let mut outputs = $m::$f::EmbeddedOutputs {
+                acks: move |x: $O1| p1.borrow_mut().push(x),
+                resp: move |x: $O2| p2.borrow_mut().push(x),
+            };
+            hv_common::catch(std::panic::AssertUnwindSafe(|| {
+                let mut flow = $m::$f(Feed(q1.clone()), Feed(q2.clone()), &mut outputs);
+                let mut per_tick = Vec::new();
+                for (a, b) in ticks {
+                    q1.borrow_mut().extend(a.iter().cloned());
+                    q2.borrow_mut().extend(b.iter().cloned());
+                    flow.run_tick_sync();
+                    per_tick.push((std::mem::take(&mut *o1.borrow_mut()), std::mem::take(&mut *o2.borrow_mut())));
+                }
+                per_tick
+            }))
+        }
+    };
+}
+
+// ---------------------------------------------------------------- C33
+flow_mod!(c33_cnt, "c33_cnt");
+flow_mod!(c33_fmax, "c33_fmax");
+flow_mod!(c33_vcount, "c33_vcount");
+flow_mod!(c33_kmax, "c33_kmax");
+flow_mod!(c33_ksum, "c33_ksum");
+flow_mod!(c33_kfirst_map, "c33_kfirst_map");
+flow_mod!(c33_kfirst_entries, "c33_kfirst_entries");
+runner1!(run_c33_cnt, c33_cnt, cnt, i32, usize);
+runner1!(run_c33_fmax, c33_fmax, fmax, i32, i32);
+runner1!(run_c33_vcount, c33_vcount, vcount, (i32, i32), (i32, usize));
+runner1!(run_c33_kmax, c33_kmax, kmax, (i32, i32), (i32, i32));
+runner1!(run_c33_ksum, c33_ksum, ksum, (i32, i32), (i32, i32));
+runner1!(run_c33_kfirst_map, c33_kfirst_map, kfirst_map, (i32, i32), HM);
+runner1!(run_c33_kfirst_entries, c33_kfirst_entries, kfirst_entries, (i32, i32), (i32, i32));
+
+// ---------------------------------------------------------------- C31
+flow_mod!(c31_batches, "c31_batches");
+flow_mod!(c31_batch_snap, "c31_batch_snap");
+flow_mod!(c31_two_batches, "c31_two_batches");
+flow_mod!(c31_state_counter, "c31_state_counter");
+flow_mod!(c31_state_prev_last, "c31_state_prev_last");
+flow_mod!(c31_lookup_counts, "c31_lookup_counts");
+runner1!(run_c31_batches, c31_batches, batches, i32, i32);
+runner1!(run_c31_batch_snap, c31_batch_snap, batch_snap, i32, (usize, usize));
+runner2!(run_c31_two_batches, c31_two_batches, two_batches, i32, i32, ((usize, usize), (i32, i32)));
+runner1!(run_c31_state_counter, c31_state_counter, state_counter, i32, usize);
+runner1!(run_c31_state_prev_last, c31_state_prev_last, state_prev_last, i32, Option<i32>);
+// generated parameter order is alphabetical: (gets, incs)
+runner2!(run_c31_lookup_counts, c31_lookup_counts, lookup_counts, i32, (i32, i32), (i32, usize));
+
+// ---------------------------------------------------------------- C34
+flow_mod!(c34_atomic_sum, "c34_atomic_sum");
+flow_mod!(c34_keyed_counter, "c34_keyed_counter");
+flow_mod!(c34_plain_sum, "c34_plain_sum");
+// generated parameter order is alphabetical: (reads, writes) / (gets, incs)
+runner2x2!(run_c34_atomic_sum, c34_atomic_sum, atomic_sum, i32, i32, i32, (i32, i32));
+runner2x2!(run_c34_plain_sum, c34_plain_sum, plain_sum, i32, i32, i32, (i32, i32));
+runner2x2!(run_c34_keyed_counter, c34_keyed_counter, keyed_counter, (i32, i32), (i32, i32), (i32, i32), (i32, (i32, usize)));
